@@ -100,7 +100,8 @@ def log_rule(chk, rule='C12.R6'):
              play=[t1, t2], tricks=9, scores={'NS': 600, 'EW': -600}, dda=dda, what='played, with a double-dummy table'),
         dict(board_id='Board 2 (replay)', names=("O'Neil #2", 'n', 'e', 's'), dealer='E', deal=hands(2), bids=['Pass', 'Pass', 'Pass', 'Pass'], contract=c_out,
              play=None, tricks=None, scores={'NS': 0, 'EW': 0}, dda=None, what='passed out, no double-dummy table, after a board that had one'),
-        dict(board_id='3', names=('w', 'n', 'e', 's'), dealer='S', deal=hands(4), bids=['H4', 'X', 'Pass', 'Pass', 'Pass'], contract=c_dbl,
+        # (ids and names are text over an alphabet that contains the space: kept verbatim, also at either end)
+        dict(board_id=' 3 ', names=('w ', ' n', 'e', 's'), dealer='S', deal=hands(4), bids=['H4', 'X', 'Pass', 'Pass', 'Pass'], contract=c_dbl,
              play=[], tricks=0, scores={'NS': 2600, 'EW': -2600}, dda=None, what='played, no completed trick recorded, declarer credited with 0 tricks'),
         dict(board_id='4', names=('w', 'n', 'e', 's'), dealer='W', deal=hands(1), bids=['C7', 'X', 'XX', 'Pass', 'Pass', 'Pass'], contract=c_rdbl,
              play=[t2], tricks=13, scores={'NS': -2660, 'EW': 2660}, dda=dda, what='redoubled grand slam'),
@@ -190,7 +191,7 @@ def settings_rule(chk, rule='C17.R7'):
         return f._construct(repo.cls('Hands'), [], {'north_hand': set(h['N']), 'east_hand': set(h['E']), 'south_hand': set(h['S']), 'west_hand': set(h['W'])})
     dda = {P[p]: {SU[s]: (i + 2 * j) % 14 for j, s in enumerate(('C', 'D', 'H', 'S', 'NT'))} for i, p in enumerate(SEATS)}
     boards = [dict(board_id='A 1', dealer='N', vul='NONE', deal=hands(0), dda=dda), dict(board_id='2', dealer='E', vul='NS', deal=hands(3), dda=None),
-              dict(board_id='2', dealer='S', vul='EW', deal=hands(5), dda=None), dict(board_id='x/4', dealer='W', vul='BOTH', deal=hands(len(deals) - 1), dda=dda)]
+              dict(board_id=' 2', dealer='S', vul='EW', deal=hands(5), dda=None), dict(board_id='x/4 ', dealer='W', vul='BOTH', deal=hands(len(deals) - 1), dda=dda)]
     n = 0
     for oi, order in enumerate([[0, 1, 2, 3], [1, 0, 2], [], [3]]):
         seq = [boards[i] for i in order]
